@@ -5,7 +5,7 @@
 //  1. function-level cases of the modelled cores (the Lean driver predicts the outcome class):
 //     (rm <charset> dec|enc|rep x<bytes>)   encodings.<charset>.Decode / Encode / EncodeReplaceUnknown
 //     (unq x<bytes>)                        internal/strings.Unquote
-//     (auth <len> <hashOk>)                 MySQLDb.ValidateHash with a response of <len> bytes
+//     (auth <len> <hashOk> <valid>)         MySQLDb.ValidateHash with a response of <len> bytes: accepted | denied | crash
 //  2. statement-level cases `(sql <stream> x<text>)`: the statement is run through Engine.Query and its
 //     rows are read, under recover and a timeout, then `SELECT 1` must still work on the session.
 //     The observation is `returns` (a result or an error came back through the API); a panic, a hang
@@ -21,6 +21,7 @@ import (
 	"bufio"
 	"bytes"
 	"context"
+	"crypto/sha1"
 	"encoding/json"
 	"fmt"
 	"io"
@@ -284,31 +285,51 @@ func (fakeAddr) String() string  { return "127.0.0.1:3306" }
 
 var _ net.Addr = fakeAddr{}
 
-func authCase(out *sink, db *mysql_db.MySQLDb, user string, hashOk bool, n int) {
+// authCase: MySQLDb.ValidateHash for account np (password "secret") with a response of n bytes.
+// valid: the response starts with the correct token (SHA1(pw) XOR SHA1(salt ‖ SHA1(SHA1(pw)))),
+// cut or zero-extended to n bytes. Observation: accepted | denied | crash.
+func authCase(out *sink, db *mysql_db.MySQLDb, user string, valid bool, n int) {
+	salt := []byte("01234567890123456789")
+	h1 := sha1.Sum([]byte("secret"))
+	h2 := sha1.Sum(h1[:])
+	scr := sha1.Sum(append(append([]byte(nil), salt...), h2[:]...))
 	resp := make([]byte, n)
 	for i := range resp {
-		resp[i] = byte(i*7 + 1)
+		switch {
+		case valid && i < 20:
+			resp[i] = h1[i] ^ scr[i]
+		case valid:
+			resp[i] = 0
+		default:
+			resp[i] = byte(i*7 + 1)
+		}
 	}
-	salt := []byte("01234567890123456789")
 	var class string
 	p := hx.Safe(func() {
-		_, err := db.ValidateHash(salt, user, resp, fakeAddr{})
-		// an error = access denied; which of "rejected early" / "compared hashes" happened is decided by
-		// the model from the lengths; the real code only tells crash from no crash
-		_ = err
-		class = "returns"
+		if _, err := db.ValidateHash(salt, user, resp, fakeAddr{}); err != nil {
+			class = "denied"
+		} else {
+			class = "accepted"
+		}
 	})
 	if p != "" {
 		class = "crash"
 	}
 	b := "0"
-	if hashOk {
+	if valid {
 		b = "1"
 	}
-	id := out.Case(hx.List("auth", strconv.Itoa(n), b), class, class == "crash")
+	id := out.Case(hx.List("auth", strconv.Itoa(n), "1", b), class, class != "denied")
 	out.Stat("core:auth:" + class)
 	if class == "crash" {
-		out.OracleFail(id, "native_password_short_response", fmt.Sprintf("MySQLDb.ValidateHash with a %d-byte mysql_native_password response panics: %s", n, p))
+		// (was the listed region native_password_short_response until the repair d3c438db7)
+		out.OracleFail(id, "-", fmt.Sprintf("MySQLDb.ValidateHash with a %d-byte mysql_native_password response panics: %s", n, p))
+	}
+	if valid && n == 20 && class != "accepted" {
+		out.OracleFail(id, "-", "the correct 20-byte token is not accepted (harness or engine defect)")
+	}
+	if class == "accepted" && !(valid && n == 20) {
+		out.OracleFail(id, "-", fmt.Sprintf("a %d-byte response (valid token prefix: %v) is accepted", n, valid))
 	}
 }
 
@@ -478,6 +499,7 @@ func run(a hx.RunArgs) (err error) {
 			}
 		}
 		for n := 0; n <= 40; n++ {
+			authCase(out, w.e.Analyzer.Catalog.MySQLDb, "np", false, n)
 			authCase(out, w.e.Analyzer.Catalog.MySQLDb, "np", true, n)
 		}
 	}
